@@ -327,7 +327,7 @@ def step(w, action, part, kind, path):
     return json.dumps({u: norm(o) for u, o in after.items()}, sort_keys=True, default=str)
 
 
-EMBEDDINGS = ('continue-then-create', 'create-then')
+EMBEDDINGS = ('continue-then-create', 'create-then', 'then-fail-stop', 'then-fail-continue')
 
 
 def embed(w, action, part, kind, path, how):
@@ -337,7 +337,9 @@ def embed(w, action, part, kind, path, how):
       continue-then-create: [action, Create] with Batch Error Continuation Option = Continue - a
                             failed action must not leave work behind that the next item commits;
       create-then:          [Create, action] - an earlier item of the batch must not change what
-                            the action does."""
+                            the action does;
+      then-fail-stop/continue: [action, Get of an unknown id] - a LATER item's failure must not take
+                            back what the action was acknowledged to have done."""
     alone = getattr(part, '_alone', None)
     if alone is None:
         return
@@ -353,6 +355,11 @@ def embed(w, action, part, kind, path, how):
             r = w.do(version, [item, create], user=action[4],
                      error_option=E.BatchErrorContinuationOption.CONTINUE)
             mine, other = 0, 1
+        elif how.startswith('then-fail'):
+            r = w.do(version, [item, W.p_get('424242')], user=action[4],
+                     **({'error_option': E.BatchErrorContinuationOption.CONTINUE} if how.endswith('continue')
+                        else {}))
+            mine, other = 0, 1
         else:
             r = w.do(version, [create, item], user=action[4])
             mine, other = 1, 0
@@ -363,7 +370,12 @@ def embed(w, action, part, kind, path, how):
     ctx = {'kind': kind, 'path': [list(a) for a in path + [action]], 'embed': how}
     akey = "%s|%s|%s" % (action[0], action[1] if action[1] in MULTI or action[1] == 'Sensitive'
                          else 'other:' + action[1], _selk(action))
-    if len(r.items) != 2 or not r.items[other].ok():
+    if how.startswith('then-fail'):
+        if not r.items or (r.items[0].ok() and (len(r.items) != 2 or r.items[1].ok())):
+            part.violation("embedding|shape|%s|%s" % (how, akey), "batch %s around %s: answers %s" % (
+                how, action, r.brief()), ctx)
+            return
+    elif len(r.items) != 2 or not r.items[other].ok():
         part.violation("embedding|create-failed|%s|%s" % (how, akey),
                        "batch %s around %s: answers %s (the Create item must succeed)" % (
                            how, action, r.brief()), ctx)
@@ -441,7 +453,7 @@ def bfs(kind, depth, first_actions, part, embeddings=1, embed_all=False):
 def _worker(task):
     kind, depth, firsts, embed_all = task
     part = Part()
-    bfs(kind, depth, firsts, part, embeddings=2, embed_all=embed_all)
+    bfs(kind, depth, firsts, part, embeddings=len(EMBEDDINGS), embed_all=embed_all)
     part.sample({'kind': kind, 'depth': depth, 'first_actions': [list(map(str, a)) for a in firsts[:2]]})
     out = part.as_dict()
     out['out'] = sorted(part.counters.pop('_out', set()), key=repr)
